@@ -48,6 +48,15 @@ type c21Case struct {
 	// MidScrape > 0: the exporter is also scraped after that many observations
 	// (the same exporter is scraped again at the end)
 	MidScrape int `json:"mid_scrape,omitempty"`
+	// DupAt > 0: boundary DupAt-1 is written twice in the declaration. Such a
+	// declaration may be refused; if it is accepted, every observation still
+	// counts in exactly one bucket (the bucket counts add up to the count, and
+	// the exported +Inf bucket equals _count)
+	DupAt int `json:"dup_at,omitempty"`
+	// Reload: after the observations the program is loaded again with this
+	// boundary list (same source position) and its metric replaces the old one
+	// in the store, as a reload does; then more observations follow
+	Reload []c21F `json:"reload,omitempty"`
 }
 
 func c21Lit(f float64) string {
@@ -76,7 +85,130 @@ func runC21(c c21Case, st *vstat.Stats) *vstat.Failure {
 	return vstat.CatchBounded(60*time.Second, func() *vstat.Failure { return runC21x(c, st) })
 }
 
+// c21Weak checks what holds for any accepted declaration and after any reload:
+// per label set the bucket counts add up to the count, which is the number of
+// observations made; the export says the same (+Inf bucket = _count).
+func c21Weak(m *metrics.Metric, keyed bool, counts map[string]uint64, sc *hx.Scraper, phase string) *vstat.Failure {
+	for _, lv := range m.LabelValues {
+		key := ""
+		if keyed {
+			key = lv.Labels[0]
+		}
+		bd := datum.GetBuckets(lv.Value)
+		var total uint64
+		for _, cnt := range bd.GetBuckets() {
+			total += cnt
+		}
+		if total != bd.GetCount() {
+			return vstat.Failf("buckets-dont-sum-to-count:"+phase, "%s: key %q: bucket counts %v add up to %d, count is %d", phase, key, bd.GetBuckets(), total, bd.GetCount())
+		}
+		if want, ok := counts[key]; ok && bd.GetCount() != want {
+			return vstat.Failf("count:"+phase, "%s: key %q: count %d after %d observations", phase, key, bd.GetCount(), want)
+		}
+	}
+	fams, text, gerr, perr := sc.Gather()
+	if gerr != nil || perr != nil {
+		return vstat.Failf("scrape-error:"+phase, "%s: gather=%v parse=%v\n%s", phase, gerr, perr, text)
+	}
+	if fam := fams["h"]; fam != nil {
+		for _, pm := range fam.Metric {
+			h := pm.GetHistogram()
+			if h == nil {
+				continue
+			}
+			inf := h.GetSampleCount()
+			var last uint64
+			for _, b := range h.Bucket {
+				if math.IsInf(b.GetUpperBound(), 1) {
+					inf = b.GetCumulativeCount()
+				}
+				if b.GetCumulativeCount() < last {
+					return vstat.Failf("export-cumulative-decreases:"+phase, "%s: %v", phase, pm)
+				}
+				last = b.GetCumulativeCount()
+			}
+			if inf != h.GetSampleCount() || last > h.GetSampleCount() {
+				return vstat.Failf("export-inf-vs-count:"+phase, "%s: +Inf bucket %d, largest finite bucket %d, _count %d\n%s", phase, inf, last, h.GetSampleCount(), text)
+			}
+			key := ""
+			for _, lp := range pm.Label {
+				if lp.GetName() == "k" {
+					key = lp.GetValue()
+				}
+			}
+			if want, ok := counts[key]; ok && h.GetSampleCount() != want {
+				return vstat.Failf("export-count:"+phase, "%s: key %q exported count %d after %d observations", phase, key, h.GetSampleCount(), want)
+			}
+		}
+	}
+	return nil
+}
+
+func c21Source(keyed bool, lits []string) string {
+	if keyed {
+		return "histogram h by k buckets " + strings.Join(lits, ", ") + "\n/^(\\S+) (\\S+)$/ {\n  h[$1] = float($2)\n}\n"
+	}
+	return "histogram h buckets " + strings.Join(lits, ", ") + "\n/^(\\S+)$/ {\n  h = float($1)\n}\n"
+}
+
+// c21Dup: the declaration repeats a boundary.
+func c21Dup(c c21Case, st *vstat.Stats) *vstat.Failure {
+	var lits []string
+	for i, b := range c.Bounds {
+		lits = append(lits, c21Lit(float64(b)))
+		if i == c.DupAt-1 {
+			lits = append(lits, c21Lit(float64(b)))
+		}
+	}
+	name := "c21d.mtail"
+	obj, err := hx.Compile(name, c21Source(c.Keyed, lits))
+	if err != nil {
+		if st != nil {
+			st.Class("repeated-boundary-refused")
+		}
+		return nil
+	}
+	if st != nil {
+		st.Class("repeated-boundary-accepted")
+	}
+	var m *metrics.Metric
+	for _, mm := range obj.Metrics {
+		if mm.Name == "h" {
+			m = mm
+		}
+	}
+	store := metrics.NewStore()
+	sc, err := hx.NewScraper(store)
+	if err != nil {
+		return vstat.Failf("harness", "%v", err)
+	}
+	defer sc.Close()
+	for _, mm := range obj.Metrics {
+		if err := store.Add(mm); err != nil {
+			return vstat.Failf("harness", "%v", err)
+		}
+	}
+	v := hx.NewVM(name, obj, false, nil)
+	counts := map[string]uint64{}
+	for _, o := range c.Obs {
+		line, key := c21Text(float64(o.V)), ""
+		if c.Keyed {
+			key = o.Key
+			if key == "" {
+				key = "a"
+			}
+			line = key + " " + line
+		}
+		hx.Run(v, "f", line)
+		counts[key]++
+	}
+	return c21Weak(m, c.Keyed, counts, sc, "repeated-boundary")
+}
+
 func runC21x(c c21Case, st *vstat.Stats) *vstat.Failure {
+	if c.DupAt > 0 && c.DupAt <= len(c.Bounds) {
+		return c21Dup(c, st)
+	}
 	var lits []string
 	for _, b := range c.Bounds {
 		lits = append(lits, c21Lit(float64(b)))
@@ -256,7 +388,52 @@ func runC21x(c c21Case, st *vstat.Stats) *vstat.Failure {
 			return vstat.Failf("sum", "key %q sum %v model %v", key, gs, mo.sum)
 		}
 	}
-	return checkExport("final scrape")
+	if f := checkExport("final scrape"); f != nil || len(c.Reload) == 0 {
+		return f
+	}
+	// reload with an edited boundary list: the new metric takes the old one's
+	// place in the store, with its label sets
+	var lits2 []string
+	for _, b := range c.Reload {
+		lits2 = append(lits2, c21Lit(float64(b)))
+	}
+	obj2, err := hx.Compile(name, c21Source(c.Keyed, lits2))
+	if err != nil {
+		return vstat.Failf("compile-rejected", "sorted boundaries %v rejected: %v", lits2, err)
+	}
+	var m2 *metrics.Metric
+	for _, mm := range obj2.Metrics {
+		if err := store.Add(mm); err != nil {
+			return vstat.Failf("harness", "reload: %v", err)
+		}
+		if mm.Name == "h" {
+			m2 = mm
+		}
+	}
+	counts := map[string]uint64{}
+	for k, mo := range models {
+		counts[k] = mo.count
+	}
+	if f := c21Weak(m2, c.Keyed, counts, sc, "after-reload"); f != nil {
+		return f
+	}
+	v2 := hx.NewVM(name, obj2, false, nil)
+	for i, o := range c.Obs {
+		if i >= 4 {
+			break
+		}
+		line, key := c21Text(float64(o.V)), ""
+		if c.Keyed {
+			key = o.Key
+			if key == "" {
+				key = "a"
+			}
+			line = key + " " + line
+		}
+		hx.Run(v2, "f", line)
+		counts[key]++
+	}
+	return c21Weak(m2, c.Keyed, counts, sc, "after-reload-and-more-observations")
 }
 
 // c21CheckExport scrapes and compares the histogram series with the model.
@@ -340,7 +517,7 @@ func c21HasNaN(c c21Case, key string) bool {
 }
 
 func TestC21(t *testing.T) {
-	st := vstat.New("C21", "histogram declarations with 2-8 strictly increasing boundaries (negative first bound, first bound 0, fractional, large) compiled from source, scalar or keyed; observation sequences at / just below / just above each boundary, far outside, negative, +-Inf, NaN, applied through the datum API and through program lines; non-trivial = at least one observation equal to a boundary and one above every bound; distinct by (boundaries, observations)")
+	st := vstat.New("C21", "histogram declarations with 2-8 strictly increasing boundaries (negative first bound, first bound 0, fractional, large) compiled from source, scalar or keyed; observation sequences at / just below / just above each boundary, far outside, negative, +-Inf, NaN, applied through the datum API and through program lines; one case in eight repeats a boundary in the declaration (refused, or accepted with every observation in exactly one bucket), one in four reloads the program with an edited boundary list (counts survive and stay consistent); non-trivial = at least one observation equal to a boundary and one above every bound; distinct by (boundaries, observations)")
 	st.Assumptions = []string{"model: first declared upper bound >= value, else (and NaN) +Inf", "Prometheus text output parsed with expfmt.TextParser"}
 	runRaw := func(raw json.RawMessage) *vstat.Failure {
 		c, err := vstat.JSON[c21Case](raw)
@@ -422,6 +599,33 @@ func TestC21(t *testing.T) {
 				}
 				c.Obs = keep
 				hasNaN = false
+			}
+			switch rapid.IntRange(0, 7).Draw(rt, "variant") {
+			case 0:
+				c.DupAt = rapid.IntRange(1, n).Draw(rt, "dupat")
+				for i := range c.Obs {
+					c.Obs[i].Via = "line"
+				}
+				st.Class("declaration-repeats-a-boundary")
+			case 1, 2:
+				// the reloaded declaration drops, adds or moves a boundary
+				nb := append([]c21F(nil), c.Bounds...)
+				switch rapid.IntRange(0, 2).Draw(rt, "edit") {
+				case 0:
+					if len(nb) > 2 {
+						k := rapid.IntRange(0, len(nb)-1).Draw(rt, "drop")
+						nb = append(nb[:k], nb[k+1:]...)
+					}
+				case 1:
+					nb = append(nb, c21F(float64(nb[len(nb)-1])+1))
+				default:
+					nb = nb[:len(nb)-1]
+					if len(nb) < 2 {
+						nb = append(nb, c21F(float64(nb[len(nb)-1])+2))
+					}
+				}
+				c.Reload = nb
+				st.Class("reload-with-edited-boundaries")
 			}
 			if len(c.Obs) >= 2 && rapid.Bool().Draw(rt, "midscrape") {
 				c.MidScrape = rapid.IntRange(1, len(c.Obs)-1).Draw(rt, "midat")
